@@ -51,6 +51,7 @@ def run(ctx):
         ctx.guard("C10", "scan", lambda: effbs.scan_guards_tight(ctx, prog))
         ctx.guard("C10", "scan-exits", lambda: effbs.scan_exits(ctx, prog))
         ctx.guard("C10", "windows", lambda: effbs.windows(ctx, prog))
+        ctx.guard("C10", "window-steps", lambda: effbs.window_steps(ctx, prog))
         ctx.guard("C10", "consts", lambda: data.window_constants(ctx, prog))
         ctx.guard("C10", "short", lambda: short_inputs(ctx, prog))
         ctx.guard("C10", "equiv", lambda: typestate.equiv_exact(ctx, prog))
